@@ -2,6 +2,8 @@ package props
 
 import (
 	"fmt"
+	"math"
+	"math/big"
 	"reflect"
 	"sort"
 	"strings"
@@ -681,6 +683,61 @@ func runC15(c *core.Ctx) {
 				x.array(a, kind, idx)
 			}
 			_ = ai
+		}
+	}
+	// integers of mixed width and signedness: sort orders them by numeric value, uniq/first/last/size see numbers
+	for i := 0; i < c.Pick(400, 6000); i++ {
+		idx++
+		if !c.Mine(idx) {
+			continue
+		}
+		r := c.Rand(idx, 17)
+		pool := []struct {
+			g any
+			v *big.Int
+		}{{uint8(200), big.NewInt(200)}, {uint8(3), big.NewInt(3)}, {-7, big.NewInt(-7)}, {uint64(math.MaxUint64), new(big.Int).SetUint64(math.MaxUint64)}, {-1, big.NewInt(-1)}, {uint(3), big.NewInt(3)}, {2, big.NewInt(2)},
+			{int64(math.MinInt64), big.NewInt(math.MinInt64)}, {uint64(1) << 63, new(big.Int).SetUint64(1 << 63)}, {int8(-128), big.NewInt(-128)}, {uint16(0), big.NewInt(0)}, {int32(200), big.NewInt(200)}, {gen.NInt(-3), big.NewInt(-3)}}
+		n := r.Range(2, 6)
+		arr := make([]any, n)
+		vals := make([]*big.Int, n)
+		for j := range arr {
+			p := pool[r.Intn(len(pool))]
+			arr[j], vals[j] = p.g, p.v
+		}
+		desc := gen.Describe(arr)
+		if !c.Begin("mixed-sign:" + desc) {
+			continue
+		}
+		sorted := append([]*big.Int{}, vals...)
+		sort.SliceStable(sorted, func(a, b int) bool { return sorted[a].Cmp(sorted[b]) < 0 })
+		var ws []string
+		for _, v := range sorted {
+			ws = append(ws, v.String())
+		}
+		// concat of a typed unsigned slice and a typed signed one as well
+		res := core.Run(x.e, "{{ a | sort | join: ',' }}|{{ a | size }}|{{ u | concat: s | sort | join: ',' }}", map[string]any{"a": arr, "u": []uint8{3, 1, 200}, "s": []int{2, -1, -7}})
+		c.Eval(1)
+		c.Obs("mixed_sign_sort_cases", 1)
+		c.Distinct("mixedsign", desc)
+		want := strings.Join(ws, ",") + "|" + fmt.Sprint(n) + "|-7,-1,1,2,3,200"
+		if !res.OK() || res.Out != want {
+			c.Violate("sort|mixed-widths", "sort must order integers of mixed width and signedness ascending by numeric value", map[string]any{"a": desc, "expected": want, "observed": res.Brief()})
+		}
+	}
+	// unallocated (nil) Go slices and maps among the elements are empty collections, not nils: compact keeps them
+	if c.Shard == 6%c.NShards && c.Begin("nil-collections-are-not-nil") {
+		for k, cs := range []struct {
+			a    any
+			want string
+		}{{[]any{[]int(nil), map[string]any(nil), []any{}, 1, nil}, "4|5|4"}, {[][]int{{1, 2}, nil, {}, {3}}, "4|4|4"}, {[]map[string]any{nil, {"k": 1}, {}}, "3|3|3"}, {[]any{[]any(nil), nil, nil}, "1|3|1"},
+			{[]any{gen.DropV{X: []int(nil)}, nil, map[string]int(nil)}, "2|3|2"}} {
+			res := core.Run(x.e, "{{ a | compact | size }}|{{ a | size }}|{% assign n = 0 %}{% for e in a %}{% if e != nil %}{% assign n = n | plus: 1 %}{% endif %}{% endfor %}{{ n }}", map[string]any{"a": cs.a})
+			c.Eval(1)
+			c.Obs("nil_collection_cases", 1)
+			c.Distinct("nilcoll", fmt.Sprint(k))
+			if !res.OK() || res.Out != cs.want {
+				c.Violate("compact|nil-collections", "compact removes exactly the nils: an unallocated slice or map among the elements is an empty collection and stays", map[string]any{"a": gen.Describe(cs.a), "expected": cs.want, "observed": res.Brief()})
+			}
 		}
 	}
 	// range literals are arrays too
